@@ -256,7 +256,7 @@ PROPS['C10'] = {
               'every exit is Ok, an expression error or one of the three run-limit errors; the loop terminates within max_iterations + 1 rounds (decreases clause) whatever the rule engine does '
               '(its round is abstracted: any facts, any error, rule A1); the counter accumulates across calls (iterations += rounds). Authorizer::run is cached after success; authorize computes '
               'remaining = configured - consumed without underflow, returns Timeout when the cached execution time already reaches max_time, and TooManyIterations when the counter exceeds the budget.',
-    'not_covered': ['wall-clock promptness inside one expensive iteration (time is an uninterpreted input: what is decided is WHERE the clock is read, not how long a step takes)', 'query / query_all (generic TryInto / TryFrom signatures not brought through Verus; same three prologue lines as authorize)',
+    'not_covered': ['wall-clock promptness inside one expensive iteration (time is an uninterpreted input: what is decided is WHERE the clock is read, not how long a step takes)', 'query_with_limits / query_all_with_limits themselves (assumed to return); query / query_all are under contract (remaining budget without underflow, Timeout when the cached time reaches the budget)',
                     'Authorizer::from_snapshot establishing the sane() precondition (iterator code)', 'what one round of rule application computes (C05)'],
     'assumptions': ['FactSet::len is the number of facts and merge never removes one; Instant / Duration modelled as nanosecond counters whose + and -= panic on overflow / underflow (specs/limits_body.rs)',
                     'Authorizer::authorize_inner leaves the counters alone (assumed contract)', 'requires sane(): iterations + max_iterations < u64::MAX before the first run and max_time below half the Duration range'],
@@ -276,7 +276,7 @@ PROPS['C09']['units'].append({'template': 'loadb.rs', 'rlimit': 30, 'items': _LO
 PROPS['C09']['units'].append({'template': 'authz.rs', 'rlimit': 60, 'items': [r'^token::authorizer::Authorizer::(authorize_inner|query_inner|query_all_inner)$'], 'exclude_obligations': _NOT_PANIC, 'quick_canaries': []})
 PROPS['C09']['proved'] += (' Also: Unary / Binary::evaluate (scalar arms), Binary::evaluate_with_closure, Expression::evaluate, Expression::print and the builder-level Display of an expression (Authorizer::dump_code) for every operation sequence (no pop / remove / index / division side condition can fail); '
                            'load_and_translate_block and AuthorizerBuilder::build_inner (index arithmetic, casts); Authorizer::authorize_inner, query_inner, query_all_inner (block indexing; needs blocks to hold the authority block, '
-                           'which build_inner::ensures.blocks establishes); World::run_with_limits and Authorizer::run / authorize / authorize_with_limits (limit arithmetic).')
+                           'which build_inner::ensures.blocks establishes); World::run_with_limits and Authorizer::run / authorize / authorize_with_limits / query / query_all (limit arithmetic).')
 
 PROPS['C19'] = {
     'units': [{'template': 'capi.rs', 'rlimit': 30, 'items': [r'^biscuit-capi::lib::']}],
